@@ -12,13 +12,15 @@ package common
 // ───────────── script.go ─────────────
 
 //@ func (s Script) VerifyFormat
-//@   property C05
+//@   property C05, C02
 //@   modifies nothing
 //@   ensures result == nil ==> len(s) == 3 && s[2] <= Operator64
+//@   ensures [c02-format] @C02 result == nil ==> ScriptOK(s)
 
 //@ func (s Script) Validate
-//@   property C05
+//@   property C05, C02
 //@   modifies nothing
+//@   ensures [c02-threshold] @C02 result == nil ==> ScriptOK(s) && sum >= s[2] -- the threshold check of C02: at least s[2] signers
 
 //@ assume func (s Script) String
 //@   pure
@@ -56,6 +58,7 @@ package common
 //@   property C05, C33
 //@   pure
 //@   ensures [format] result == IntText(val(x))
+//@   assumes [c17-encode] val(x) >= 0 ==> AmountOfVal(kvstr(result)) == val(x) -- C17: ASSUMED codec pair with NewIntegerFromString (zz_contracts_c17_verif.go)
 
 // ───────────── validation.go ─────────────
 
@@ -90,6 +93,11 @@ package common
 //@ uninterp LedgerOutCount(s any, h crypto.Hash) mathint
 //@ uninterp LedgerOutType(s any, h crypto.Hash, i mathint) mathint
 //@ uninterp CustodianGenesis(s any) mathint
+//@ uninterp LedgerFinalized(s any, h crypto.Hash) bool
+//@ uninterp LedgerHasAsset(s any, id crypto.Hash) bool
+//@ uninterp LedgerBalance(s any, id crypto.Hash) mathint
+//@ uninterp LedgerAssetChain(s any, id crypto.Hash) crypto.Hash
+//@ uninterp LedgerAssetKey(s any, id crypto.Hash) string
 
 //@ spec CustodianKeysUnique(ns []*CustodianNode) bool = forall i, j int :: 0 <= i && i < j && j < len(ns) ==> ns[i].Custodian.String() != ns[j].Custodian.String()
 //@ spec KeysNonNil(ks []*crypto.Key) bool = forall k int :: 0 <= k && k < len(ks) ==> ks[k] != nil
@@ -101,10 +109,19 @@ package common
 //@   modifies nothing
 //@   ensures [S1-utxo-wf] err == nil && result0 != nil ==> val(result0.Amount) > 0 && KeysNonNil(result0.Keys)
 //@   ensures [S2-utxo-in-ledger] err == nil && result0 != nil ==> LedgerHasTx(recv, hash) && index < LedgerOutCount(recv, hash) && result0.Type == LedgerOutType(recv, hash, index)
+//@   -- C01: a read returns THE amount and asset of the output stored under (hash, index): reads of one store value are deterministic
+//@   ensures [S11-utxo-fn] err == nil && result0 != nil ==> val(result0.Amount) == StoreAmount(recv, hash, index) && result0.Asset == StoreAsset(recv, hash, index)
+//@   -- C02: likewise THE key list (as values) and THE script of that output
+//@   ensures [S12-utxo-keys-fn] err == nil && result0 != nil ==> len(result0.Keys) == StoreKeyCount(recv, hash, index) &&
+//@       (forall j int :: 0 <= j && j < len(result0.Keys) ==> *result0.Keys[j] == StoreKeyVal(recv, hash, index, j)) &&
+//@       (ScriptOK(result0.Script) ==> result0.Script[2] == StoreThreshold(recv, hash, index))
+//@   -- C02: the record is decoded from bytes on every read (storage: UnmarshalUTXO): its key objects are new and pairwise distinct objects
+//@   ensures [S13-utxo-fresh] err == nil && result0 != nil ==> PtrDistinct(result0.Keys) && (forall j int :: 0 <= j && j < len(result0.Keys) ==> fresh(result0.Keys[j]))
 
 //@ assume func (s TransactionReader) ReadTransaction(hash)
 //@   modifies nothing
 //@   ensures [S3-tx-found] err == nil && LedgerHasTx(recv, hash) ==> result0 != nil
+//@   ensures [S13-finalized] err == nil && result0 != nil && result1 != "" ==> LedgerFinalized(recv, hash) -- C16: the second result is the hex of the FINALIZATION record, "" when there is none (storage.readTransactionAndFinalization, verified: [not-finalized])
 //@   ensures [S4-tx-wf] err == nil && result0 != nil ==> StoredTxOK(result0)
 //@   ensures [S4b-tx-decoded] err == nil && result0 != nil ==> TxPayloadOK(&result0.SignedTransaction.Transaction) -- stored transactions were decoded from bytes (C06: DecodedTx)
 //@   ensures [S5-tx-ledger] err == nil && result0 != nil ==> len(result0.Outputs) == LedgerOutCount(recv, hash) &&
@@ -128,20 +145,62 @@ package common
 //@ assume func (s AssetReader) ReadAssetWithBalance(id)
 //@   modifies nothing
 //@   ensures [S9-balance] err == nil && result0 != nil ==> val(result1) >= 0
+//@   -- C16: the asset record and the recorded total as functions of the ledger state (storage.(*BadgerStore).ReadAssetWithBalance is verified
+//@   -- against the T-KV model: it returns exactly the ASSETTOTAL value of the committed state; storage/zz_contracts_c17_verif.go [balance])
+//@   ensures [S11-asset] err == nil ==> (result0 != nil <==> LedgerHasAsset(recv, id))
+//@   ensures [S12-total] err == nil && result0 != nil ==> val(result1) == LedgerBalance(recv, id) && result0.Chain == LedgerAssetChain(recv, id) && result0.AssetKey == LedgerAssetKey(recv, id)
 
 //@ func validateReferences
-//@   property C05
+//@   property C05, C16
 //@   requires tx != nil && store != nil
 //@   modifies nothing
+//@   ensures [c16-refs-final] err == nil ==> forall i int :: 0 <= i && i < len(tx.References) ==> LedgerFinalized(store, tx.References[i]) -- C16: ValidatePost of a withdrawal claim: its reference is stored AND finalized (what storage.writeWithdrawalClaim needs: ClaimPre)
+//@   loop 0 invariant [c16] forall j int :: 0 <= j && j <= rangeindex ==> LedgerFinalized(store, tx.References[j])
 
 //@ func validateUTXO
-//@   property C05
+//@   property C05, C02
 //@   requires utxo != nil && keySigs != nil && 0 <= index && 0 <= offset
+//@   requires [c02-disjoint] @C02 forall j int :: 0 <= j && j < len(utxo.Keys) ==> !has(keySigs, utxo.Keys[j])
 //@   modifies keySigs[..]
 //@   ensures [nokeys] utxo.Type != OutputTypeScript && utxo.Type != OutputTypeNodeRemove ==> len(keySigs) == old(len(keySigs))
 //@   ensures [types] result == nil ==> utxo.Type == OutputTypeScript || utxo.Type == OutputTypeNodeRemove ||
 //@       (utxo.Type == OutputTypeNodePledge && (txType == TransactionTypeNodeAccept || txType == TransactionTypeNodeCancel)) ||
 //@       (utxo.Type == OutputTypeNodeAccept && txType == TransactionTypeNodeRemove)
+//@   -- C02, per-input signature map: every signer index of sigs[index] is a key index of the spent output, that key is collected (mapped to
+//@   -- the signature submitted under that index when the key objects are distinct), and the number of (distinct) indices reaches the threshold
+//@   ensures [c02-map-keys] @C02 result == nil && SignedType(utxo.Type) && as == nil ==> index < len(sigs) &&
+//@       (forall i uint16 :: has(sigs[index], i) ==> i < len(utxo.Keys) && has(keySigs, utxo.Keys[i]))
+//@   ensures [c02-map-sigs] @C02 result == nil && SignedType(utxo.Type) && as == nil && PtrDistinct(utxo.Keys) ==>
+//@       (forall i uint16 :: has(sigs[index], i) ==> keySigs[utxo.Keys[i]] == sigs[index][i])
+//@   ensures [c02-map-threshold] @C02 result == nil && SignedType(utxo.Type) && as == nil ==> ScriptOK(utxo.Script) && SigCount(sigs[index]) >= utxo.Script[2]
+//@   -- C02, aggregate signature: the signers are strictly increasing; those that fall into this input's window [offset, offset+len(Keys))
+//@   -- are the contiguous run as.Signers[lo .. lo+n), each is mapped to Keys[m-offset] (collected), and n reaches the threshold
+//@   -- (NoWrap: offset + len(Keys) is computed in machine ints; both are lengths of slices that exist at the same time, so it cannot wrap)
+//@   ensures [c02-agg] @C02 result == nil && SignedType(utxo.Type) && as != nil && NoWrap(offset, utxo.Keys) ==> SignersOK(as.Signers) && ScriptOK(utxo.Script) &&
+//@       (exists lo, n int :: {Witness2(lo, n)} Witness2(lo, n) && AggWindow(as.Signers, lo, n, offset, offset + len(utxo.Keys)) && n >= utxo.Script[2] &&
+//@           (forall j int :: lo <= j && j < lo + n ==> has(keySigs, utxo.Keys[as.Signers[j] - offset])))
+//@   ensures [c02-agg-has] @C02 result == nil && SignedType(utxo.Type) && as != nil && NoWrap(offset, utxo.Keys) ==> forall i int :: 0 <= i && i < len(as.Signers) &&
+//@       offset <= as.Signers[i] && as.Signers[i] < offset + len(utxo.Keys) ==> has(keySigs, utxo.Keys[as.Signers[i] - offset]) -- every signer of the window is collected
+//@   -- what happens to the other entries of keySigs: the keys of this output are not yet collected (they are new objects: [c02-disjoint],
+//@   -- established by validateInputs), so every earlier entry is kept with its signature; every new entry is an existing object
+//@   ensures [c02-kept] @C02 forall p *crypto.Key :: old(has(keySigs, p)) ==> has(keySigs, p) && keySigs[p] == old(keySigs[p])
+//@   ensures [c02-dom] @C02 forall p *crypto.Key :: has(keySigs, p) ==> old(has(keySigs, p)) || allocated(p)
+//@   hint return [win] @C02 NoWrap(offset, utxo.Keys) ==> AggWindow(as.Signers, rangeindex_0 + 1 - signers, signers, offset, offset + len(utxo.Keys))
+//@   hint return [run] @C02 forall j int :: rangeindex_0 + 1 - signers <= j && j < rangeindex_0 + 1 ==> has(keySigs, utxo.Keys[as.Signers[j] - offset])
+//@   hint return [wit] @C02 Witness2(rangeindex_0 + 1 - signers, signers) -- names the witness (lo, n) of [c02-agg] for the solver (Witness2 is constantly true)
+//@   loop 0 invariant [c02-lo] @C02 0 <= signers && signers <= rangeindex + 1
+//@   loop 0 invariant [c02-next] @C02 rangeindex >= 0 && rangeindex + 1 < len(as.Signers) ==> as.Signers[rangeindex] < as.Signers[rangeindex + 1] -- ground instance of the order
+//@   loop 0 invariant [c02-last] @C02 signers > 0 ==> rangeindex >= 0 && offset <= as.Signers[rangeindex]
+//@   loop 0 invariant [c02-before] @C02 forall j int :: 0 <= j && j < rangeindex + 1 - signers ==> as.Signers[j] < offset
+//@   loop 0 invariant [c02-run] @C02 forall j int :: rangeindex + 1 - signers <= j && j <= rangeindex ==>
+//@       offset <= as.Signers[j] && as.Signers[j] < offset + len(utxo.Keys) && has(keySigs, utxo.Keys[as.Signers[j] - offset])
+//@   loop 0 invariant [c02-kept] @C02 forall p *crypto.Key :: old(has(keySigs, p)) ==> has(keySigs, p) && keySigs[p] == old(keySigs[p])
+//@   loop 0 invariant [c02-dom] @C02 forall p *crypto.Key :: has(keySigs, p) ==> old(has(keySigs, p)) || allocated(p)
+//@   loop 1 invariant [c02-seen] @C02 forall i uint16 :: visited(i) ==> i < len(utxo.Keys) && has(keySigs, utxo.Keys[i])
+//@   loop 1 invariant [c02-seen-sig] @C02 PtrDistinct(utxo.Keys) ==> forall i uint16 :: visited(i) ==> keySigs[utxo.Keys[i]] == sigs[index][i]
+//@   loop 1 invariant [c02-len] @C02 len(sigs[index]) == old(len(sigs[index]))
+//@   loop 1 invariant [c02-kept] @C02 forall p *crypto.Key :: old(has(keySigs, p)) ==> has(keySigs, p) && keySigs[p] == old(keySigs[p])
+//@   loop 1 invariant [c02-dom] @C02 forall p *crypto.Key :: has(keySigs, p) ==> old(has(keySigs, p)) || allocated(p)
 
 //@ spec InputKey(in *Input) string = fmt.Sprintf2("%s:%d", iface(in.Hash.String()), iface(in.Index))
 //@ spec InLedger(s any, in *Input) bool = LedgerHasTx(s, in.Hash) && 0 <= in.Index && in.Index < LedgerOutCount(s, in.Hash)
@@ -149,8 +208,9 @@ package common
 //@ spec SignedType(t mathint) bool = t == OutputTypeScript || t == OutputTypeNodeRemove
 
 //@ func (tx *SignedTransaction) validateInputs
-//@   property C05
+//@   property C05, C01, C02
 //@   requires tx != nil && store != nil && InputsOK(&tx.Transaction)
+//@   requires [c02-preexisting] @C02 SigMapsExist(tx) -- typing: the signature maps reachable from the argument exist before the call
 //@   modifies nothing
 //@   ensures [filter] UtxoMapOK(result0)
 //@   ensures [keys] err == nil && PlainInputs(&tx.Transaction) ==> forall i int :: 0 <= i && i < len(tx.Inputs) ==> has(result0, InputKey(tx.Inputs[i]))
@@ -162,6 +222,59 @@ package common
 //@   loop 0 invariant [haskey] forall k int :: 0 <= k && k <= rangeindex ==> has(inputsFilter, InputKey(tx.Inputs[k]))
 //@   loop 0 invariant [inledger] forall k int :: 0 <= k && k <= rangeindex ==> InLedger(store, tx.Inputs[k])
 //@   loop 0 invariant len(keySigs) > 0 ==> exists k int :: 0 <= k && k <= rangeindex && SignedType(InputUtxoType(store, tx.Inputs[k]))
+//@   -- C01: the returned amount is the sum of the amounts the store holds for ALL inputs (all ordinary), each of the transaction's asset;
+//@   -- or it is the amount of the first non-ordinary input (mint / deposit), the inputs before it being ignored
+//@   ensures [c01-sum] @C01 err == nil && OrdInputs(&tx.Transaction) ==> val(result1) == SumIn(store, &tx.Transaction, len(tx.Inputs))
+//@   ensures [c01-asset] @C01 err == nil && OrdInputs(&tx.Transaction) ==> forall i int :: 0 <= i && i < len(tx.Inputs) ==> InputAssetIs(store, tx.Inputs[i], tx.Asset)
+//@   ensures [c01-genesis] @C01 err == nil && NoSpecialInputs(&tx.Transaction) ==> OrdInputs(&tx.Transaction) -- a non-empty Genesis is rejected
+//@   ensures [c01-special] @C01 err == nil ==> forall k int :: 0 <= k && k < len(tx.Inputs) && !OrdInput(tx.Inputs[k]) && (forall j int :: 0 <= j && j < k ==> OrdInput(tx.Inputs[j])) ==>
+//@       len(tx.Inputs[k].Genesis) == 0 &&
+//@       (tx.Inputs[k].Mint != nil ==> val(result1) == val(tx.Inputs[k].Mint.Amount)) &&
+//@       (tx.Inputs[k].Mint == nil ==> tx.Inputs[k].Deposit != nil && val(result1) == val(tx.Inputs[k].Deposit.Amount))
+//@   -- C02, per-input signature maps: for every input k that spends a script / node-remove output and every index i of its signature map,
+//@   -- i is a key index of that output and the submitted signature is valid for key i over `hash` (BatchVerify said so); the number of
+//@   -- distinct indices reaches the output's threshold
+//@   ensures [c02-batch] @C02 err == nil && tx.AggregatedSignature == nil ==> forall k int, i uint16 :: {tx.Inputs[k], has(tx.SignaturesMap[k], i)} 0 <= k && k < len(tx.Inputs) && OrdInputs(&tx.Transaction) &&
+//@       SignedType(InputUtxoType(store, tx.Inputs[k])) && has(tx.SignaturesMap[k], i) ==> i < InKeyCount(store, tx.Inputs[k]) &&
+//@       crypto.SigOK(seq(InKeyVal(store, tx.Inputs[k], i)), seq(hash), seq(*tx.SignaturesMap[k][i]))
+//@   ensures [c02-threshold] @C02 err == nil && tx.AggregatedSignature == nil && OrdInputs(&tx.Transaction) ==> forall k int :: {tx.Inputs[k]} 0 <= k && k < len(tx.Inputs) &&
+//@       SignedType(InputUtxoType(store, tx.Inputs[k])) ==> k < len(tx.SignaturesMap) && SigCount(tx.SignaturesMap[k]) >= InThreshold(store, tx.Inputs[k])
+//@   -- C02, aggregate signature: allKeys is the concatenation of the inputs' key lists in input order (input k owns the index window
+//@   -- [KeyOff(k), KeyOff(k+1))); for every input k that spends a script / node-remove output exactly the signers as.Signers[lo .. lo+n) fall into
+//@   -- its window and n reaches its threshold; AggregateVerify accepted the signature for `hash` over the transcript in which signer position i is
+//@   -- (index as.Signers[i], the key of that window at that offset)
+//@   ensures [c02-agg-threshold] @C02 err == nil && tx.AggregatedSignature != nil && OrdInputs(&tx.Transaction) ==>
+//@       (forall k int :: {tx.Inputs[k]} 0 <= k && k < len(tx.Inputs) && SignedType(InputUtxoType(store, tx.Inputs[k])) ==>
+//@           exists lo, n int :: {Witness2(lo, n)} Witness2(lo, n) && n >= InThreshold(store, tx.Inputs[k]) &&
+//@               AggWindow(tx.AggregatedSignature.Signers, lo, n, KeyOff(store, &tx.Transaction, k), KeyOff(store, &tx.Transaction, k) + InKeyCount(store, tx.Inputs[k])))
+//@   ensures [c02-agg-verified] @C02 err == nil && tx.AggregatedSignature != nil && OrdInputs(&tx.Transaction) ==>
+//@       forall k, i int :: {tx.Inputs[k], tx.AggregatedSignature.Signers[i]} 0 <= k && k < len(tx.Inputs) && SignedType(InputUtxoType(store, tx.Inputs[k])) && InAggWindow(store, tx, k, i) ==>
+//@           crypto.AggSigner(seq(tx.AggregatedSignature.Signature), seq(hash), len(tx.AggregatedSignature.Signers), i, tx.AggregatedSignature.Signers[i],
+//@               seq(InKeyVal(store, tx.Inputs[k], tx.AggregatedSignature.Signers[i] - KeyOff(store, &tx.Transaction, k))))
+//@   loop 0 invariant [c02-alllen] @C02 len(allKeys) == KeyOff(store, &tx.Transaction, rangeindex + 1)
+//@   loop 0 invariant [c02-offmono] @C02 forall k int :: {tx.Inputs[k]} 0 <= k && k <= rangeindex ==> 0 <= KeyOff(store, &tx.Transaction, k) && InKeyCount(store, tx.Inputs[k]) >= 0 &&
+//@       KeyOff(store, &tx.Transaction, k) + InKeyCount(store, tx.Inputs[k]) <= KeyOff(store, &tx.Transaction, rangeindex + 1)
+//@   loop 0 invariant [c02-allval] @C02 forall k, a int :: {tx.Inputs[k], allKeys[a]} 0 <= k && k <= rangeindex && KeyOff(store, &tx.Transaction, k) <= a &&
+//@       a < KeyOff(store, &tx.Transaction, k) + InKeyCount(store, tx.Inputs[k]) ==>
+//@       allKeys[a] != nil && *allKeys[a] == InKeyVal(store, tx.Inputs[k], a - KeyOff(store, &tx.Transaction, k))
+//@   loop 0 invariant [c02-aggwin] @C02 tx.AggregatedSignature != nil ==> forall k int :: {tx.Inputs[k]} 0 <= k && k <= rangeindex && SignedType(InputUtxoType(store, tx.Inputs[k])) ==>
+//@       (exists lo, n int :: {Witness2(lo, n)} Witness2(lo, n) && n >= InThreshold(store, tx.Inputs[k]) &&
+//@           AggWindow(tx.AggregatedSignature.Signers, lo, n, KeyOff(store, &tx.Transaction, k), KeyOff(store, &tx.Transaction, k) + InKeyCount(store, tx.Inputs[k])))
+//@   loop 0 invariant [c02-agghas] @C02 tx.AggregatedSignature != nil ==> forall k, i int :: 0 <= k && k <= rangeindex && SignedType(InputUtxoType(store, tx.Inputs[k])) &&
+//@       InAggWindow(store, tx, k, i) ==> exists p *crypto.Key :: {has(keySigs, p)} has(keySigs, p) -- a signer in a window means that a key was collected
+//@   loop 0 invariant [c02-keys-old] @C02 forall p *crypto.Key :: has(keySigs, p) ==> allocated(p)
+//@   loop 0 invariant [c02-oldmaps] @C02 forall k int :: 0 <= k && k < len(tx.SignaturesMap) ==> !fresh(tx.SignaturesMap[k])
+//@   loop 0 invariant [c02-sigs] @C02 tx.AggregatedSignature == nil ==> forall k int, i uint16 :: 0 <= k && k <= rangeindex &&
+//@       SignedType(InputUtxoType(store, tx.Inputs[k])) && has(tx.SignaturesMap[k], i) ==> i < InKeyCount(store, tx.Inputs[k]) &&
+//@       (exists p *crypto.Key :: {has(keySigs, p)} has(keySigs, p) && p != nil && allocated(p) && keySigs[p] == tx.SignaturesMap[k][i] && *p == InKeyVal(store, tx.Inputs[k], i))
+//@   loop 0 invariant [c02-thr] @C02 tx.AggregatedSignature == nil ==> forall k int :: {tx.Inputs[k]} 0 <= k && k <= rangeindex &&
+//@       SignedType(InputUtxoType(store, tx.Inputs[k])) ==> k < len(tx.SignaturesMap) && SigCount(tx.SignaturesMap[k]) >= InThreshold(store, tx.Inputs[k])
+//@   loop 1 invariant [c02-lens] @C02 len(keys) == len(sigs)
+//@   loop 1 invariant [c02-wit] @C02 Witness1(len(keys) - 1) -- (constant true) puts the index of the element appended last into the solver's term set
+//@   loop 1 invariant [c02-collected] @C02 forall p *crypto.Key :: visited(p) ==> exists a int :: {Witness1(a)} Witness1(a) && 0 <= a && a < len(keys) && keys[a] == p && sigs[a] == keySigs[p]
+//@   loop 0 invariant [c01-ord] @C01 forall j int :: 0 <= j && j <= rangeindex ==> OrdInput(tx.Inputs[j])
+//@   loop 0 invariant [c01-sum] @C01 val(inputAmount) == SumIn(store, &tx.Transaction, rangeindex + 1)
+//@   loop 0 invariant [c01-asset] @C01 forall j int :: 0 <= j && j <= rangeindex ==> InputAssetIs(store, tx.Inputs[j], tx.Asset)
 
 //@ -- OutKeysOld: the key arrays were allocated before the call (true of every object reachable from an argument; stated because the
 //@ -- engine otherwise cannot separate them from the slices the function allocates itself)
@@ -186,19 +299,82 @@ package common
 //@ spec DecodedShape(ver *VersionedTransaction) bool = InputsOK(&ver.Transaction) && OutputsOK(&ver.Transaction) && OutKeysOK(&ver.Transaction) && OutKeysOld(&ver.Transaction)
 
 //@ func (ver *VersionedTransaction) Validate
-//@   property C05
+//@   property C05, C01, C02
 //@   requires ver != nil && store != nil && DecodedShape(ver) && snapTime >= CustodianGenesis(store)
 //@   requires [decoded] DecodedTx(&ver.SignedTransaction) -- proved for every decoded transaction by C06 (unmarshalVersionedTransaction)
 //@   requires [preexisting] OutsOK(&ver.Transaction) -- objects reachable from the argument exist before the call (typing)
+//@   requires [c02-preexisting] @C02 SigMapsExist(&ver.SignedTransaction) -- likewise the signature maps
+//@   requires [c02-typing] @C02 SigsNotHashCache(ver) -- a *crypto.Signature never points to the Hash field ver.hash (Go typing; the engine has no typed pointers)
 //@   -- frame: Validate caches sizes/hashes inside ver (and, through validateNodeRemove, the hash cache of a store-returned
 //@   -- transaction, which no caller can observe). Assumed, not checked (noframe): used by the C31 batch loop.
 //@   modifies ver.hash, ver.pmbytes, ver.validatedSize
 //@   noframe
+//@   -- C01 (the property statement, clause by clause): an accepted transaction has inputs and outputs; either all inputs are ordinary
+//@   -- or the single input is a mint / deposit; every output amount is positive; the outputs add up to exactly the total input amount,
+//@   -- which is positive; every ordinary input is an output that exists in the ledger and has the transaction's asset.
+//@   -- The clauses describe the transaction AS PASSED IN (old state): Validate writes only the caches ver.hash / ver.pmbytes / ver.validatedSize
+//@   -- (and hash caches of store-returned transactions in validateNodeRemove, whose frame cannot be named), so old == new for every field used.
+//@   -- proof guidance (checked): the facts are transferred to the entry state once, right after the callee that establishes them; the postconditions
+//@   -- then combine them at every return
+//@   hint after validateInputs [h-c01-ord] @C01 callerr == nil && txType != TransactionTypeMint && txType != TransactionTypeDeposit ==> old(OrdInputs(&ver.Transaction))
+//@   hint after validateInputs [h-c01-asset] @C01 callerr == nil && txType != TransactionTypeMint && txType != TransactionTypeDeposit ==>
+//@       old(forall k int :: {ver.Inputs[k]} 0 <= k && k < len(ver.Inputs) ==> InLedger(store, ver.Inputs[k]) && InputAssetIs(store, ver.Inputs[k], ver.Asset))
+//@   hint after validateInputs [h-c01-sum] @C01 callerr == nil && txType != TransactionTypeMint && txType != TransactionTypeDeposit ==>
+//@       val(callresult1) == old(SumIn(store, &ver.Transaction, len(ver.Inputs)))
+//@   hint after validateOutputs [h-c01-positive] @C01 callerr == nil ==> old(forall a int :: 0 <= a && a < len(ver.Outputs) ==> val(ver.Outputs[a].Amount) > 0)
+//@   hint after validateOutputs [h-c01-out] @C01 callerr == nil ==> old(SumOut(ver.Outputs, len(ver.Outputs))) == val(inputAmount)
+//@   ensures [c01-nonempty] @C01 err == nil ==> old(len(ver.Inputs) >= 1 && len(ver.Outputs) >= 1)
+//@   ensures [c01-shape] @C01 err == nil ==> old(forall j int :: 0 <= j && j < len(ver.Inputs) ==> OrdInput(ver.Inputs[j]) ||
+//@       (len(ver.Inputs) == 1 && len(ver.Inputs[0].Genesis) == 0 && (ver.Inputs[0].Mint != nil || ver.Inputs[0].Deposit != nil)))
+//@   ensures [c01-positive] @C01 err == nil ==> old(forall a int :: 0 <= a && a < len(ver.Outputs) ==> val(ver.Outputs[a].Amount) > 0)
+//@   ensures [c01-conserved] @C01 err == nil ==> old(SumOut(ver.Outputs, len(ver.Outputs)) == TxInAmount(store, &ver.Transaction))
+//@   ensures [c01-input-positive] @C01 err == nil ==> old(TxInAmount(store, &ver.Transaction) > 0)
+//@   ensures [c01-asset] @C01 err == nil ==> old(forall k int :: 0 <= k && k < len(ver.Inputs) && OrdInput(ver.Inputs[k]) ==>
+//@       InLedger(store, ver.Inputs[k]) && InputAssetIs(store, ver.Inputs[k], ver.Asset))
+//@   -- C02 (the property statement; old state = the transaction as passed in): every ordinary input k that spends a script / node-remove output is
+//@   -- authorised over the payload hash PayloadHashOf(ver). Signature maps: every index i of SignaturesMap[k] is a key index of the spent output and
+//@   -- the signature under i verifies for that key; the number of (distinct) indices reaches the output's threshold. Aggregate signature: exactly the
+//@   -- signers Signers[lo .. lo+n) fall into input k's window of the concatenated key lists, n reaches the threshold, and AggregateVerify accepted
+//@   -- the signature over the transcript that pairs each such signer with the key of that window. (That the signer list is strictly increasing, i.e. the
+//@   -- signers are distinct, is part of the precondition DecodedTx and is re-checked by validateAggregatedSigners: validateUTXO [c02-agg].)
+//@   -- proof guidance (checked): the C02 clauses are established once, right after validateInputs returned, in terms of the entry state (old); the
+//@   -- postconditions below then restate them at every return (for a mint / deposit transaction the single input is not ordinary: vacuous there)
+//@   hint after validateInputs [c02-keyoff-old] @C02 forall k int :: {ver.Inputs[k]} 0 <= k && k < len(ver.Inputs) ==>
+//@       KeyOff(store, &ver.Transaction, k) == old(KeyOff(store, &ver.Transaction, k))
+//@   hint after validateInputs [c02-inhash-old] @C02 forall k int :: {ver.Inputs[k]} 0 <= k && k < len(ver.Inputs) ==> ver.Inputs[k].Hash == old(ver.Inputs[k].Hash)
+//@   hint after validateInputs [c02-aggsig-old] @C02 ver.AggregatedSignature != nil ==> seq(ver.AggregatedSignature.Signature) == old(seq(ver.AggregatedSignature.Signature))
+//@   hint after validateInputs [h-c02-sigs] @C02 callerr == nil && txType != TransactionTypeMint && txType != TransactionTypeDeposit ==> old(ver.AggregatedSignature == nil ==> forall k int, i uint16 :: {ver.Inputs[k], has(ver.SignaturesMap[k], i)} 0 <= k && k < len(ver.Inputs) && OrdInput(ver.Inputs[k]) &&
+//@       SignedType(InputUtxoType(store, ver.Inputs[k])) && has(ver.SignaturesMap[k], i) ==> i < InKeyCount(store, ver.Inputs[k]) &&
+//@       crypto.SigOK(seq(InKeyVal(store, ver.Inputs[k], i)), seq(PayloadHashOf(ver)), seq(*ver.SignaturesMap[k][i])))
+//@   hint after validateInputs [h-c02-threshold] @C02 callerr == nil && txType != TransactionTypeMint && txType != TransactionTypeDeposit ==> old(ver.AggregatedSignature == nil ==> forall k int :: {ver.Inputs[k]} 0 <= k && k < len(ver.Inputs) && OrdInput(ver.Inputs[k]) &&
+//@       SignedType(InputUtxoType(store, ver.Inputs[k])) ==> k < len(ver.SignaturesMap) && SigCount(ver.SignaturesMap[k]) >= InThreshold(store, ver.Inputs[k]))
+//@   hint after validateInputs [h-c02-agg-threshold] @C02 callerr == nil && txType != TransactionTypeMint && txType != TransactionTypeDeposit ==> old(ver.AggregatedSignature != nil ==> forall k int :: {ver.Inputs[k]} 0 <= k && k < len(ver.Inputs) && OrdInput(ver.Inputs[k]) &&
+//@       SignedType(InputUtxoType(store, ver.Inputs[k])) ==>
+//@       (exists lo, n int :: {Witness2(lo, n)} Witness2(lo, n) && n >= InThreshold(store, ver.Inputs[k]) &&
+//@           AggWindow(ver.AggregatedSignature.Signers, lo, n, KeyOff(store, &ver.Transaction, k), KeyOff(store, &ver.Transaction, k) + InKeyCount(store, ver.Inputs[k]))))
+//@   hint after validateInputs [h-c02-agg-verified] @C02 callerr == nil && txType != TransactionTypeMint && txType != TransactionTypeDeposit ==> old(ver.AggregatedSignature != nil ==> forall k, i int :: {ver.Inputs[k], ver.AggregatedSignature.Signers[i]} 0 <= k && k < len(ver.Inputs) && OrdInput(ver.Inputs[k]) &&
+//@       SignedType(InputUtxoType(store, ver.Inputs[k])) && InAggWindow(store, &ver.SignedTransaction, k, i) ==>
+//@       crypto.AggSigner(seq(ver.AggregatedSignature.Signature), seq(PayloadHashOf(ver)), len(ver.AggregatedSignature.Signers), i, ver.AggregatedSignature.Signers[i],
+//@           seq(InKeyVal(store, ver.Inputs[k], ver.AggregatedSignature.Signers[i] - KeyOff(store, &ver.Transaction, k)))))
+//@   ensures [c02-sigs] @C02 err == nil ==> old(ver.AggregatedSignature == nil ==> forall k int, i uint16 :: {ver.Inputs[k], has(ver.SignaturesMap[k], i)} 0 <= k && k < len(ver.Inputs) && OrdInput(ver.Inputs[k]) &&
+//@       SignedType(InputUtxoType(store, ver.Inputs[k])) && has(ver.SignaturesMap[k], i) ==> i < InKeyCount(store, ver.Inputs[k]) &&
+//@       crypto.SigOK(seq(InKeyVal(store, ver.Inputs[k], i)), seq(PayloadHashOf(ver)), seq(*ver.SignaturesMap[k][i])))
+//@   ensures [c02-threshold] @C02 err == nil ==> old(ver.AggregatedSignature == nil ==> forall k int :: {ver.Inputs[k]} 0 <= k && k < len(ver.Inputs) && OrdInput(ver.Inputs[k]) &&
+//@       SignedType(InputUtxoType(store, ver.Inputs[k])) ==> k < len(ver.SignaturesMap) && SigCount(ver.SignaturesMap[k]) >= InThreshold(store, ver.Inputs[k]))
+//@   ensures [c02-agg-threshold] @C02 err == nil ==> old(ver.AggregatedSignature != nil ==> forall k int :: {ver.Inputs[k]} 0 <= k && k < len(ver.Inputs) && OrdInput(ver.Inputs[k]) &&
+//@       SignedType(InputUtxoType(store, ver.Inputs[k])) ==>
+//@       (exists lo, n int :: {Witness2(lo, n)} Witness2(lo, n) && n >= InThreshold(store, ver.Inputs[k]) &&
+//@           AggWindow(ver.AggregatedSignature.Signers, lo, n, KeyOff(store, &ver.Transaction, k), KeyOff(store, &ver.Transaction, k) + InKeyCount(store, ver.Inputs[k]))))
+//@   ensures [c02-agg-verified] @C02 err == nil ==> old(ver.AggregatedSignature != nil ==> forall k, i int :: {ver.Inputs[k], ver.AggregatedSignature.Signers[i]} 0 <= k && k < len(ver.Inputs) && OrdInput(ver.Inputs[k]) &&
+//@       SignedType(InputUtxoType(store, ver.Inputs[k])) && InAggWindow(store, &ver.SignedTransaction, k, i) ==>
+//@       crypto.AggSigner(seq(ver.AggregatedSignature.Signature), seq(PayloadHashOf(ver)), len(ver.AggregatedSignature.Signers), i, ver.AggregatedSignature.Signers[i],
+//@           seq(InKeyVal(store, ver.Inputs[k], ver.AggregatedSignature.Signers[i] - KeyOff(store, &ver.Transaction, k)))))
 
 // ───────────── type-specific validators ─────────────
 
 //@ func (tx *VersionedTransaction) validateMint
-//@   property C05
+//@   property C05, C01
+//@   ensures [c01-one-input] @C01 result == nil ==> len(tx.Inputs) == 1 -- no ordinary input hides before the mint input
 //@   requires tx != nil && store != nil && InputsOK(&tx.Transaction) && OutputsOK(&tx.Transaction)
 //@   requires [payload-ok] TxPayloadOK(&tx.SignedTransaction.Transaction) -- PayloadHash (C06)
 //@   requires [mint-input] len(tx.Inputs) == 1 ==> tx.Inputs[0].Mint != nil
@@ -209,6 +385,7 @@ package common
 //@   trustpre NewIntegerFromString -- (C33) its argument here is a string constant; that the constant is a non-negative decimal is assumed
 //@   modifies nothing
 //@   ensures val(result) >= 0
+//@   assumes [c17-table] val(result) == CapacityOf(id) -- C17: a deterministic function of id (switch over constants); ASSUMED, see zz_contracts_c17_verif.go
 
 //@ func (a *Asset) Verify
 //@   property C05
@@ -216,12 +393,17 @@ package common
 //@   modifies nothing
 
 //@ func (tx *Transaction) verifyDepositData
-//@   property C05
+//@   property C05, C16
 //@   requires tx != nil && store != nil && len(tx.Inputs) >= 1 && tx.Inputs[0] != nil && tx.Inputs[0].Deposit != nil
 //@   modifies nothing
+//@   -- C16: ValidatePost of a deposit, as far as the store sees it (what an accepted deposit guarantees about the ledger state it was validated on)
+//@   ensures [c16-amount] err == nil ==> val(tx.Inputs[0].Deposit.Amount) > 0
+//@   ensures [c16-capacity] err == nil && LedgerHasAsset(store, tx.Asset) ==> LedgerBalance(store, tx.Asset) + val(tx.Inputs[0].Deposit.Amount) < CapacityOf(tx.Asset)
+//@   ensures [c16-asset] err == nil && LedgerHasAsset(store, tx.Asset) ==> LedgerAssetChain(store, tx.Asset) == tx.Inputs[0].Deposit.Chain && LedgerAssetKey(store, tx.Asset) == tx.Inputs[0].Deposit.AssetKey
 
 //@ func (tx *SignedTransaction) validateDeposit
-//@   property C05
+//@   property C05, C01
+//@   ensures [c01-one-input] @C01 result == nil ==> len(tx.Inputs) == 1 -- no ordinary input hides before the deposit input
 //@   requires tx != nil && store != nil && InputsOK(&tx.Transaction) && OutputsOK(&tx.Transaction) && snapTime >= CustodianGenesis(store)
 //@   requires [deposit-input] len(tx.Inputs) == 1 ==> tx.Inputs[0].Deposit != nil
 //@   modifies nothing
